@@ -266,6 +266,16 @@ pub fn mutate(args: &str, item_src: &str, donors: &[(String, String)], rng: &mut
                 _ => None,
             };
             if let Some(fields) = fields {
+                // give one field an unusual (but syntactically valid) type
+                if rng.below(4) == 0 {
+                    let n = fields.len();
+                    if n > 0 {
+                        let k = rng.below(n);
+                        if let (Some(f), Some(t)) = (fields.iter_mut().nth(k), odd_type(rng)) {
+                            f.ty = t;
+                        }
+                    }
+                }
                 let op = rng.below(4);
                 match fields {
                     syn::Fields::Named(n) => edit_punct(&mut n.named, op, rng),
@@ -290,7 +300,12 @@ pub fn mutate(args: &str, item_src: &str, donors: &[(String, String)], rng: &mut
                     if let Some(seg) = path.segments.last_mut() {
                         match &mut seg.arguments {
                             syn::PathArguments::AngleBracketed(a) => {
-                                if rng.below(4) == 0 {
+                                if rng.below(3) == 0 {
+                                    if let Some(t) = odd_type(rng) {
+                                        a.args = syn::punctuated::Punctuated::new();
+                                        a.args.push(syn::GenericArgument::Type(t));
+                                    }
+                                } else if rng.below(4) == 0 {
                                     seg.arguments = syn::PathArguments::None;
                                 } else {
                                     let op = rng.below(3);
@@ -387,6 +402,14 @@ pub fn mutate(args: &str, item_src: &str, donors: &[(String, String)], rng: &mut
         }
     }
     Some((args, item.to_token_stream().to_string()))
+}
+
+/// syntactically valid types of every form the expander might have to print again
+fn odd_type(rng: &mut Rng) -> Option<syn::Type> {
+    let pool = ["dyn A + Send", "dyn A", "&'a (dyn A + Send)", "impl A + Send", "fn(u8) -> u8", "[u8]", "str", "(u8, Self)", "()", "!", "*const Self",
+        "[T; N]", "[u8; { 1 + 2 }]", "<T as Tr>::A", "T::A", "::std::vec::Vec<T>", "m!()", "_", "&'static mut [Self]", "Box<dyn Fn(&T) -> T + Send + 'static>",
+        "for<'x> fn(&'x u8) -> &'x u8", "(dyn A + Send)", "Option<Self>", "Buf<u8, 4>", "It<Item = u8>", "r#type", "Self", "&Self", "dyn for<'x> Tr<'x> + 'a"];
+    syn::parse_str::<syn::Type>(pool[rng.below(pool.len())]).ok()
 }
 
 fn edit_punct<T: Clone, P: Default>(p: &mut syn::punctuated::Punctuated<T, P>, op: usize, rng: &mut Rng) {
